@@ -26,9 +26,11 @@ def add_only_template(draw: Callable) -> tuple:
 def add_only_traits(draw: Callable) -> list:
     """non-empty-biased subset of the seven add-only traits"""
     k = draw(st.integers(0, 9))
-    if k < 4:
+    if k < 2:
         return list(ADD_ONLY_TRAITS)
-    return config.trait_subset(draw, ADD_ONLY_TRAITS)
+    if k < 4:
+        return [t for t in ADD_ONLY_TRAITS if t != "math"]
+    return config.trait_subset_light(draw, ADD_ONLY_TRAITS)
 
 
 common.install(
